@@ -46,13 +46,18 @@ def run(tier):
         exhaustive_scope = "all directed graphs with self-loops on <=3 labelled nodes x all non-empty subsets"
     else:
         plan = [(1, 0, 2, 8), (2, 0, 16, 8), (3, 0, 512, 8)]
-        four = [(4, k * 2048, 2048, 8) for k in range(32)]
-        rand = [(seed * 1000 + k, 12500, 12, 4) for k in range(16)]
+        four = [(4, k * 1024, 1024, 16) for k in range(64)]
+        # a seeded slice of the 2^25 five-node graphs
+        import random
+        rnd = random.Random(seed)
+        five = [(5, rnd.randrange(0, 2 ** 25 - 4000), 4000, 4) for _ in range(32)]
+        four = four + five
+        rand = [(seed * 1000 + k, 40000, 12, 4) for k in range(32)]
         exhaustive_scope = "all directed graphs with self-loops on <=4 labelled nodes (65 536 on 4) x all 15 non-empty subsets"
     for (n, lo, hi, rep) in plan:
         shards.append((drv, ["exh", n, lo, hi, rep], seed * 7919 + n))
     for (n, lo, cnt, rep) in four:
-        hi = min(lo + cnt, 65536)
+        hi = min(lo + cnt, 2 ** (n * n))
         shards.append((drv, ["exh", n, lo, hi, rep], seed * 7919 + lo))
     for (s, cnt, maxn, rep) in rand:
         shards.append((drv, ["rand", s, cnt, maxn, rep], s))
